@@ -103,7 +103,21 @@ for f in files:
                 new = src[i][:m.start()] + rep + src[i][m.end():]
                 if new != src[i]:
                     mutants.append((f, i, src[i], new))
+# statement-level operators (`--stmt`): delete a simple statement line; swap two adjacent simple statement lines
+if "--stmt" in args:
+    mutants = []
+    for f in files:
+        path = os.path.join(REPO, f)
+        src, lines = eligible_lines(path)
+        simple = lambda l: l.strip().endswith(";") and not l.strip().startswith(("let ", "use ", "pub ", "const ", "static ", "type ", "}", "return", "break", "continue")) and "=>" not in l
+        for i in lines:
+            if simple(src[i]):
+                mutants.append((f, i, src[i], "// " + src[i].strip()))
+                if i + 1 in lines and simple(src[i + 1]) and src[i].strip() != src[i + 1].strip():
+                    mutants.append((f, i, src[i], src[i + 1] + "\n" + src[i] + "  //SWAP"))
 rnd.shuffle(mutants)
+if opt("--shard"):
+    k, n = map(int, opt("--shard").split("/")); mutants = mutants[k::n]
 mutants = mutants[:MAXN]
 print(f"{len(mutants)} mutants over {len(files)} files", flush=True)
 log = open(os.path.join(root, "campaign.jsonl"), "a")
@@ -114,6 +128,7 @@ for n, (f, i, old, new) in enumerate(mutants):
     orig = open(path).read()
     lines = orig.split("\n")
     lines[i] = new
+    if new.endswith("//SWAP"): lines[i + 1] = ""
     open(path, "w").write("\n".join(lines))
     t0 = time.time()
     verdict, detail = None, ""
